@@ -125,7 +125,13 @@ class Prop(common.PropertyCheck):
             return "the fit rewrote the caller's fl_rfi / fl_mef arrays (a later fit with the same arrays, or a slice of them, gets other data)"
         p = [unbits(b) for b in impl['p']]
         if not all(math.isfinite(v) for v in p):
-            return 'non-finite parameters %s' % p
+            if case['k'] == 'recover' or math.isnan(p[2]):
+                return 'non-finite parameters %s' % p
+            # arbitrary pairs: the property makes no convergence claim.  With parameters beyond the double range the callables evaluate to
+            # inf*0 = NaN, so the structural identities (proved over the reals for all parameters: sc_odd, sc_zero, model_eq_curve_sub_auto) cannot
+            # be evaluated in floating point; counted, not judged
+            self.exclude('struct: optimiser ran off to parameters beyond the double range (identities not evaluable)')
+            return None
         if p[2] < 0:
             return 'fitted autofluorescence is negative: %r (%s)' % (p[2], {k: v for k, v in case.items()})
         x = [unbits(b) for b in impl['x']]; sc = [unbits(b) for b in impl['sc']]
